@@ -29,6 +29,8 @@ def run(check: Check, repo: Repo, tier: str) -> None:
     T.ancestor_walk(check, repo)
     T.graph_owners(check, repo)
     T.error_keeps_items(check, repo)
+    T.pump_pacing(check, repo)
+    T.drain_guarded(check, repo)
     from rules import exec_rules as X
 
     X.future_exception_guard(check, repo, repo.package_modules('execution'))
